@@ -42,6 +42,11 @@ CLAIMED = {
         "For every DAG on up to 4 commits (5 thorough) and every pair of query commits, with commit timestamps as symbolic integers in [-2^40,2^40] (the code only compares/negates them, so all orderings incl. ties, backwards and negative clocks are covered): _find_lcas/find_merge_base return exactly the maximal common ancestors, can_fast_forward(a,b) <=> a is an ancestor of b, independent/find_octopus_base (thorough) are exact; Walker yields exactly the reachable set once each in date and topo order (never a parent before its child), and reachable(include)-reachable(exclude) under monotone clocks. Three genuine defects found by this check were repaired (fix: commits 77392fb, 0225633, 3a70501).",
         "Trusted: z3, ksym, CPython. Commits are real Commit objects with fixed ids in a dict-backed store (no serialisation); heapq runs natively on the proxies' comparison protocol.",
     ),
+    "C07": (
+        "bounded symbolic exploration of the real _GitFile under a rely/guarantee environment (ksym): positions and kinds of interfering actions and of an injected fault are solver-forked variables over a real directory",
+        "One actor runs open-for-write/write/(close|abort|interrupted with-block) on the real _GitFile in a real directory while a protocol-abiding other locker may acquire/commit/abort before up to 2 of the actor's system calls and one system call may fail with EIO, all at symbolic positions: the actor never renames or removes a lock it does not own, owns the lock after a successful open, leaves complete old or complete new content visible to readers at every point, releases its lock on every ending, and a failed or aborted write leaves the old content. By assume/guarantee induction this gives mutual exclusion for any number of protocol-abiding writers within the bound. Two genuine defects found by this check were repaired (fix: 91eebc4, 8e3e18a). Callers of the protocol (index, refs, config writers) under fault injection are not covered by this check yet.",
+        "Trusted: z3 (forking only), ksym, POSIX semantics of O_EXCL/rename/unlink as provided by the kernel on /dev/shm; other writers follow the protocol.",
+    ),
     "C11": (
         "bounded symbolic execution of the real index (de)serialisation kernels (ksym) against each other and against reference models of git's varint.c and on-disk entry layout",
         "For every value below 2^63 the v4 varint round-trips and is byte-identical to git's varint.c; path compression round-trips (memory and stream decoders) for every pair of paths of up to 3 bytes and for 127..300-byte previous paths; write_cache_entry->read_cache_entry returns every field for versions 2,3,4 with all stat fields, stage/assume-valid and skip-worktree/intent-to-add bits symbolic, names of 1..9 symbolic bytes (all padding classes) and of 0xFFE..0x1001 bytes, with git's layout (saturating 12-bit length, 1..8 NUL padding); index_entry_from_stat->write never fails for any 64-bit stat value and stores it modulo 2^32. Three genuine defects found by this check were repaired. Ordering of entries, extensions and the SHA trailer are not covered by this check yet.",
